@@ -178,4 +178,39 @@ theorem partial_is_a_miss (s : Store) (keys : List String) (k : String) (hk : k 
     obtain ⟨v, _, hv, _⟩ := (hit_is_positional s keys vs h).2 i k hi
     rw [hs] at hv; cases hv
 
+theorem nodup_index_unique {l : List String} (h : l.Nodup) {i j : Nat} {k : String}
+    (hi : l[i]? = some k) (hj : l[j]? = some k) : i = j := by
+  induction l generalizing i j with
+  | nil => simp at hi
+  | cons x xs ih =>
+    simp only [List.nodup_cons] at h
+    cases i with
+    | zero =>
+      cases j with
+      | zero => rfl
+      | succ j =>
+        simp at hi hj
+        subst hi
+        exact absurd (List.mem_of_getElem? hj) h.1
+    | succ i =>
+      cases j with
+      | zero =>
+        simp at hi hj
+        subst hj
+        exact absurd (List.mem_of_getElem? hi) h.1
+      | succ j =>
+        simp at hi hj
+        rw [ih h.2 hi hj]
+
+/-- an entity the subgraph answered with null is not handed to the cache under its key -/
+theorem null_entity_is_not_stored (keys : List String) (vals : List (Option String)) (items : List (String × String))
+    (h : collect keys vals = some items) (hn : keys.Nodup) (i : Nat) (k : String)
+    (hk : keys[i]? = some k) (hv : vals[i]? = some none) : ∀ v, (k, v) ∉ items := by
+  intro v hmem
+  obtain ⟨j, hj, hvj⟩ := collect_positional keys vals items h (k, v) hmem
+  have := nodup_index_unique hn hk hj
+  subst this
+  rw [hv] at hvj
+  cases hvj
+
 end GqlVerif.RespCache
